@@ -97,6 +97,12 @@ func genC08(seed uint64, tier string) *plan.Plan {
 		case x < 6:
 			pl.Ops = append(pl.Ops, plan.Op{K: "data", A: int64(r.IntN(nT)), B: int64(1 + r.IntN(1+r.IntN(40))), C: int64(r.Uint64() >> 1), D: int64(r.IntN(300)),
 				S: []string{"", "extra", "v2"}[r.IntN(3)]})
+			if r.IntN(8) == 0 {
+				pl.Ops = append(pl.Ops, plan.Op{K: "resend", S: []string{"", "prep"}[r.IntN(2)]})
+			}
+			if r.IntN(12) == 0 {
+				pl.Ops = append(pl.Ops, plan.Op{K: "tmplagain", A: int64(r.IntN(nT))})
+			}
 		case x < 8:
 			var d time.Duration
 			switch r.IntN(6) {
